@@ -337,7 +337,16 @@ pub fn replay(sc: &Value) -> Value {
     let ops = parse_ops(sc);
     let faults: Vec<bool> = sc["faults"].as_array().map(|a| a.iter().map(|x| x.as_bool().unwrap_or(false)).collect()).unwrap_or_default();
     let kinds: Vec<String> = sc["fault_kinds"].as_array().map(|a| a.iter().map(|x| x.as_str().unwrap_or("other").to_string()).collect()).unwrap_or_default();
-    let out = run_real(cap, &ending, &ops, faults, kinds);
+    let built = catch_unwind(AssertUnwindSafe(|| run_real(cap, &ending, &ops, faults, kinds)));
+    let out = match built {
+        Ok(o) => o,
+        Err(p) => {
+            // run_real catches panics of the operations themselves: this one came from the constructor
+            let msg = p.downcast_ref::<String>().cloned().or_else(|| p.downcast_ref::<&str>().map(|s| s.to_string())).unwrap_or_default();
+            return json!({"violations": [{"prop": "C20", "clause": "no-panic", "detail": format!(
+                "constructing the writer (capacity {}, terminator {:?}) panicked: {}", cap, ending, msg)}]});
+        }
+    };
     let viol = judge(cap, &ending, &ops, &out);
     let results: Vec<String> = out.results.iter().map(|r| format!("{:?}", r)).collect();
     let attempts: Vec<Value> = out
